@@ -1,28 +1,34 @@
 (* The executable instance of the kernel's field operations: "lazy reals" = RealEnc expressions with
    constant folding.  While a computation stays rational it is carried out exactly (reduced
-   fractions); log / pi / non-cube powers stay symbolic and are decided at the end by certified
+   bigQ fractions); log / pi / non-cube powers stay symbolic and are decided at the end by certified
    interval arithmetic (Base/RealEnc.v).  Oracles: exact Gauss-Jordan (Base/QMat.v), a table for the
    Kepler solver's values. *)
 From Coq Require Import Reals QArith ZArith List Bool Arith.
+From Bignums Require Import BigQ.
 From TJ Require Import Base.RealEnc Base.Fops Base.QMat.
 Import ListNotations.
 
-Definition sr := rexpr.
-Definition sr_q (e : sr) : option Q := match e with RC n d => Some (n # d) | _ => None end.
-Definition sr_of (q : Q) : sr := let r := Qred q in RC (Qnum r) (Qden r).
+Inductive sr := SQ (q : bq) | SE (e : rexpr).
+Definition sr_q (e : sr) : option bq := match e with SQ q => Some q | SE _ => None end.
+Definition sr_of (q : bq) : sr := SQ q.
+Definition sr_ofQ (q : Q) : sr := SQ (bofQ q).
+(* the closed real expression a lazy real denotes *)
+Definition sr_rx (e : sr) : rexpr := match e with SQ q => RQ (btoQ q) | SE x => x end.
+Definition srZ (z : Z) : sr := SQ (bofQ (z # 1)).
+Definition sr_undef : sr := SE (RDiv (RC 1 1) (RC 0 1)).
 
-Definition sr_bin (qop : Q -> Q -> Q) (sym : sr -> sr -> sr) (a b : sr) : sr :=
-  match sr_q a, sr_q b with Some x, Some y => sr_of (qop x y) | _, _ => sym a b end.
-Definition sr_add := sr_bin Qplus RAdd.
-Definition sr_sub := sr_bin Qminus RSub.
-Definition sr_mul := sr_bin Qmult RMul.
+Definition sr_bin (qop : bq -> bq -> bq) (sym : rexpr -> rexpr -> rexpr) (a b : sr) : sr :=
+  match a, b with SQ x, SQ y => SQ (qop x y) | _, _ => SE (sym (sr_rx a) (sr_rx b)) end.
+Definition sr_add := sr_bin badd RAdd.
+Definition sr_sub := sr_bin bsub RSub.
+Definition sr_mul := sr_bin bmul RMul.
 Definition sr_div (a b : sr) : sr :=
-  match sr_q a, sr_q b with
-  | Some x, Some y => if Qeq_bool y 0 then RDiv a b else sr_of (x / y)
-  | _, _ => RDiv a b
+  match a, b with
+  | SQ x, SQ y => if beq y b0 then SE (RDiv (sr_rx a) (sr_rx b)) else SQ (bdiv x y)
+  | _, _ => SE (RDiv (sr_rx a) (sr_rx b))
   end.
-Definition sr_opp (a : sr) : sr := match sr_q a with Some x => sr_of (- x) | None => RNeg a end.
-Definition sr_abs (a : sr) : sr := match sr_q a with Some x => sr_of (if Qle_bool 0 x then x else - x) | None => RAbs a end.
+Definition sr_opp (a : sr) : sr := match a with SQ x => SQ (bopp x) | SE e => SE (RNeg e) end.
+Definition sr_abs (a : sr) : sr := match a with SQ x => SQ (babs x) | SE e => SE (RAbs e) end.
 
 (* integer cube root by bit construction *)
 Fixpoint icbrt_bits (bits : nat) (r n : Z) : Z :=
@@ -33,28 +39,35 @@ Fixpoint icbrt_bits (bits : nat) (r n : Z) : Z :=
   end.
 Definition icbrt (n : Z) : option Z :=
   let r := icbrt_bits (Z.to_nat (Z.log2 n / 3 + 2)) 0 n in if (r * r * r =? n)%Z then Some r else None.
-(* x ** (-2/3): exact when x is a ratio of perfect cubes, otherwise exp(-2/3 ln x) *)
-Definition sr_pow_m23 (a : sr) : sr :=
+(* x ** (-2/3): exact when x is a ratio of perfect cubes; otherwise a rational y from the candidate list `tab` that is
+   CERTIFIED (interval arithmetic, Base/RealEnc.v) to satisfy |exp(-2/3 ln x) - y| <= 2^-46 max(1,|y|)... i.e. a
+   correctly rounded double of the real value; with no certified candidate the value stays symbolic. *)
+Definition pow_m23_rx (x : rexpr) : rexpr := RExp (RMul (RC (-2) 3) (RLn x)).
+Definition sr_pow_m23 (tab : list Q) (a : sr) : sr :=
+  let sym := SE (pow_m23_rx (sr_rx a)) in
   match a with
-  | RC n d =>
-      match (if (0 <? n)%Z then icbrt n else None), icbrt (Zpos d) with
-      | Some rn, Some rd => sr_of ((rd # 1) * (rd # 1) / ((rn # 1) * (rn # 1)))
-      | _, _ => RExp (RMul (RC (-2) 3) (RLn a))
+  | SQ x =>
+      let q := btoQ x in
+      match (if (0 <? Qnum q)%Z then icbrt (Qnum q) else None), icbrt (Zpos (Qden q)) with
+      | Some rn, Some rd => SQ (bofQ ((rd # 1) * (rd # 1) / ((rn # 1) * (rn # 1))))
+      | _, _ => match find (fun y => rclose 80 (y * (1 # 70368744177664)) (pow_m23_rx (sr_rx a)) y) tab with
+                | Some y => SQ (bofQ y)
+                | None => sym
+                end
       end
-  | _ => RExp (RMul (RC (-2) 3) (RLn a))
+  | _ => sym
   end.
 Definition sr_min (a b : sr) : sr :=
-  match sr_q a, sr_q b with
-  | Some x, Some y => if Qle_bool x y then a else b
-  | _, _ => if rlt 60 a b then a else b         (* undecided only when equal to 2^-60: either is right to tolerance *)
+  match a, b with
+  | SQ x, SQ y => if bleb x y then a else b
+  | _, _ => if rlt 60 (sr_rx a) (sr_rx b) then a else b   (* undecided only when closer than 2^-60: either is right to tolerance *)
   end.
 
-Definition sr_fops : fops sr :=
-  mk_fops sr (RC 0 1) (RC 1 1) sr_add sr_sub sr_mul sr_div sr_opp (fun z => RC z 1) sr_abs RLn RPi sr_pow_m23 sr_min
-          (RDiv (RC 1 1) (RC 0 1)).
+Definition sr_fops (tab : list Q) : fops sr :=
+  mk_fops sr (srZ 0) (srZ 1) sr_add sr_sub sr_mul sr_div sr_opp srZ sr_abs (fun a => SE (RLn (sr_rx a))) (SE RPi) (sr_pow_m23 tab) sr_min sr_undef.
 
 (* ---- oracles ---- *)
-Definition sr_all_q (l : list sr) : option (list Q) :=
+Definition sr_all_q (l : list sr) : option (list bq) :=
   fold_right (fun e acc => match sr_q e, acc with Some q, Some r => Some (q :: r) | _, _ => None end) (Some []) l.
 Definition sr_mat_q (n m : nat) (a : arr2 sr) : option qmat :=
   fold_right (fun r acc => match sr_all_q r, acc with Some q, Some rs => Some (q :: rs) | _, _ => None end) (Some []) (tab2 n m a).
@@ -64,7 +77,7 @@ Definition sr_o_inv (n : nat) (a : arr2 sr) : option (arr2 sr) :=
   | None => None
   | Some qa => match qinv n qa with
                | None => None
-               | Some x => if is_inverse n qa x then Some (of_list2 (RC 0 1) (map (map sr_of) x)) else None
+               | Some x => if is_inverse n qa x then Some (of_list2 (srZ 0) (map (map sr_of) x)) else None
                end
   end.
 (* LU "in place": only the diagonal is read afterwards; the pivots' product is the determinant up to sign *)
@@ -73,26 +86,26 @@ Definition sr_o_lu (n : nat) (a : arr2 sr) : option (arr2 sr) :=
   | None => None
   | Some qa => match qpivots n qa with
                | None => None
-               | Some ps => Some (fun i j => if Nat.eqb i j then sr_of (nth i ps 0) else RC 0 1)
+               | Some ps => Some (fun i j => if Nat.eqb i j then sr_of (nth i ps b0) else srZ 0)
                end
   end.
 Definition sr_o_solve (n : nat) (a : arr2 sr) (b : arr1 sr) : option (arr1 sr) :=
   match sr_mat_q n n a, sr_all_q (tab1 n b) with
   | Some qa, Some qb => match qsolve n qa qb with
                         | None => None
-                        | Some x => Some (of_list1 (RC 0 1) (map sr_of x))
+                        | Some x => Some (of_list1 (srZ 0) (map sr_of x))
                         end
   | _, _ => None
   end.
 
 (* Kepler table: (P, K, e, omega, phi0, t0) -> rv at each epoch; a call with other arguments finds nothing *)
 Definition sr_eqb (a b : sr) : bool :=
-  match sr_q a, sr_q b with Some x, Some y => Qeq_bool x y | _, _ => false end.
+  match sr_q a, sr_q b with Some x, Some y => beq x y | _, _ => false end.
 Definition kepler_table := list (list sr * list sr).
 Definition sr_o_kepler (tbl : kepler_table) (P K e om phi0 t0 : sr) (n : nat) : sr :=
   match find (fun entry => (fix eqs (x y : list sr) := match x, y with [], [] => true | u :: x', v :: y' => sr_eqb u v && eqs x' y' | _, _ => false end)
                            (fst entry) [P; K; e; om; phi0; t0]) tbl with
-  | Some entry => nth n (snd entry) (RDiv (RC 1 1) (RC 0 1))
-  | None => RDiv (RC 1 1) (RC 0 1)
+  | Some entry => nth n (snd entry) sr_undef
+  | None => sr_undef
   end.
 Definition sr_oracles (tbl : kepler_table) : oracles sr := mk_oracles sr sr_o_inv sr_o_lu sr_o_solve (sr_o_kepler tbl).
